@@ -63,6 +63,14 @@ SUBJPRO = {"en": "I", "fr": "je"}
 BE = {"en": "be", "fr": "être"}
 SEE = {"en": "see", "fr": "voir"}
 MARKS = ["!", ";", ",", ":", "."]
+# verb-before-subject clauses: (variant, verb) per language.  plain: S(VP(V), CP) ; here: S(Adv, VP(V), CP) ;
+# pc: French compound past with auxiliary être (the participle agrees) ; attr: S(VP(V être, A), CP) ;
+# rel: NP(D, N, SP(Pro que/that, VP(V), CP))
+VS = {"en": [("plain", "come"), ("plain", "be"), ("here", "come"), ("here", "go"), ("rel", "love"), ("rel", "see")],
+      "fr": [("plain", "dormir"), ("plain", "venir"), ("pc", "arriver"), ("pc", "partir"), ("pc", "venir"), ("attr", "être"),
+             ("rel", "habiter"), ("rel", "voir")]}
+REL = {"en": ("house", "that"), "fr": ("maison", "que")}
+HERE = {"en": "here", "fr": "ici"}
 OPTION_VALUES = {"pe": 2, "n": "p", "g": "f", "t": "ps", "aux": "êt", "f": "co", "tn": "", "c": "acc", "pos": "post",
                  "pro": True, "ow": "p", "poss": True, "cap": True, "lier": True}
 OPTION_PROP = {"ow": "own"}
@@ -247,6 +255,68 @@ def verb_forms(P, lang, verb):
     return _STATE[key]
 
 
+def vs_verb(P, case, feats=None):
+    """the verb (terminal) of a verb-before-subject clause; feats = (pe, plural?, g) set explicitly, or None"""
+    v = P.V(case["verb"])
+    if case["vs"] == "pc":
+        v.t("pc")
+    if feats is not None:
+        pe, pl, g = feats
+        v.pe(pe).n("p" if pl else "s")
+        if g is not None:
+            v.g(g)
+    return v
+
+
+def vs_forms(P, case):
+    """tokens of the verb group (verb [+ attribute]) alone for every (person, number, gender)"""
+    lang = case["lang"]
+    key = ("vsf", lang, case["vs"], case["verb"], case.get("adj"))
+    if key not in _STATE:
+        r = {}
+        for pe in (1, 2, 3):
+            for pl in (False, True):
+                for g in (None, "m", "f", "x", "n"):
+                    t = toks_of(vs_verb(P, case, (pe, pl, g)))
+                    if case["vs"] == "attr":
+                        t = t + adj_forms(P, lang, case["adj"])["%s%s" % (g or "-", "p" if pl else "s")]
+                    r["%d%s%s" % (pe, "p" if pl else "s", g or "-")] = t
+        _STATE[key] = r
+    return _STATE[key]
+
+
+def vs_build(P, case, co):
+    """the clause around the coordination `co` (or around a plain NP when co is None: used for the prefix)"""
+    lang, nota = case["lang"], case["nota"]
+    v = vs_verb(P, case)
+    if nota == "dep":
+        return P.root(v, co.pos("post")), v
+    vs = case["vs"]
+    if vs == "plain" or vs == "pc":
+        return P.S(P.VP(v), co), v
+    if vs == "here":
+        return P.S(P.Adv(HERE[lang]), P.VP(v), co), v
+    if vs == "attr":
+        return P.S(P.VP(v, P.A(case["adj"])), co), v
+    noun, rel = REL[lang]
+    return P.NP(P.D(DET[lang]), P.N(noun), P.SP(P.Pro(rel), P.VP(v), co)), v
+
+
+def vs_prefix(P, case):
+    """tokens before the verb group"""
+    lang = case["lang"]
+    key = ("vsp", lang, case["nota"], case["vs"], case["verb"])
+    if key not in _STATE:
+        if case["nota"] == "dep" or case["vs"] in ("plain", "pc", "attr"):
+            _STATE[key] = []
+        elif case["vs"] == "here":
+            _STATE[key] = [HERE[lang]]
+        else:
+            top, _ = vs_build(P, case, P.NP(P.D(DET[lang]), P.N(NOUNS[lang][0][0])))
+            _STATE[key] = toks_of(top)[:3]      # le/la N que|qu' ; the N that
+    return _STATE[key]
+
+
 def adj_forms(P, lang, adj):
     key = ("af", lang, adj)
     if key not in _STATE:
@@ -264,7 +334,7 @@ def adj_forms(P, lang, adj):
 def rel_of(case):
     if case["nota"] != "dep":
         return ""
-    return case.get("rel") or {"subj": "subj", "subjattr": "subj", "obj": "comp", "attr": "comp", "vps": "comp",
+    return case.get("rel") or {"subj": "subj", "subjattr": "subj", "vsubj": "subj", "obj": "comp", "attr": "comp", "vps": "comp",
                                "alone": "subj"}[case["role"]]
 
 
@@ -300,6 +370,10 @@ def build_case(P, case):
             r = case["badrel"][1]
         members.append(build_member(P, lang, nota, m, r, ctx))
     conj = case["conj"]
+    later = []
+    if case.get("incr") is not None:
+        # the coordination is completed with .add() once it is already part of the clause
+        members, later = members[:case["incr"]], members[case["incr"]:]
     if nota == "cp":
         args = list(members)
         if conj is not None:
@@ -309,6 +383,14 @@ def build_case(P, case):
         tk = case.get("tkind", "C")
         term = P.Q("") if conj is None else (P.C(conj) if tk == "C" else getattr(P, tk)(conj))
         co = P.coord(term, *members)
+    top, co, v = build_clause(P, case, co)
+    for m in later:
+        co.add(m)
+    return top, co, v
+
+
+def build_clause(P, case, co):
+    lang, nota, role = case["lang"], case["nota"], case["role"]
     v = None
     if role == "alone":
         top = co
@@ -318,6 +400,8 @@ def build_case(P, case):
             top = P.S(co, P.VP(v, P.A(case["adj"])) if role == "subjattr" else P.VP(v))
         else:
             top = P.root(v, co, P.comp(P.A(case["adj"]))) if role == "subjattr" else P.root(v, co)
+    elif role == "vsubj":
+        top, v = vs_build(P, case, co)
     elif role in ("obj", "attr"):
         v = P.V(case["verb"])
         su = build_subject(P, lang, nota, case["subj"])
@@ -386,9 +470,15 @@ def impl_case(case):
             extras["vf"] = verb_forms(P, lang, case["verb"])
             if role == "subjattr":
                 extras["af"] = adj_forms(P, lang, case["adj"])
-            if nota == "dep":
-                v0 = P.V(case["verb"])
-                line["r0"] = {"pe": pe_json(v0.getProp("pe")), "n": v0.getProp("n"), "g": v0.getProp("g")}
+            # the verb's own record: what it reads when nothing is linked (coord: always the shared record)
+            v0 = P.V(case["verb"])
+            line["r0"] = {"pe": pe_json(v0.getProp("pe")), "n": v0.getProp("n"), "g": v0.getProp("g")}
+        elif role == "vsubj":
+            line["role"] = "subj"
+            extras["vsf"] = vs_forms(P, case)
+            extras["prefix"] = vs_prefix(P, case)
+            v0 = vs_verb(P, case)
+            line["r0"] = {"pe": pe_json(v0.getProp("pe")), "n": v0.getProp("n"), "g": v0.getProp("g")}
         elif role == "attr" and nota == "dep":
             line["role"] = "attrshare"
             s0 = build_subject(P, lang, nota, case["subj"])
@@ -405,9 +495,12 @@ def impl_case(case):
             line["role"] = "other"
             if role != "alone":
                 extras["prefix"] = prefix_tokens(P, case)[1]
-            if nota == "dep" and conj is None and not mem:
-                q0 = P.Q("")   # a coord without dependents keeps the record of its terminal
-                line["r0"] = {"pe": pe_json(q0.getProp("pe")), "n": q0.getProp("n"), "g": q0.getProp("g")}
+            if nota == "dep":
+                # a coord keeps the record of its terminal when the terminal has one (Q, N … — not C)
+                tk = case.get("tkind", "C")
+                q0 = P.Q("") if conj is None else getattr(P, tk)(conj)
+                if hasattr(q0, "peng"):
+                    line["r0"] = {"pe": pe_json(q0.getProp("pe")), "n": q0.getProp("n"), "g": q0.getProp("g")}
         if role in ("attr", "vps") and line["role"] == "other":
             extras["norec"] = True
         if nota == "dep" and line["role"] == "other" and any(m["t"] == "nest" for m in case["members"]):
@@ -440,7 +533,13 @@ def model_sentence(case, line, m, extras):
         return {"err": m["err"]}
     role = line["role"]
     out = {"w": m["w"], "rec": m["rec"]}
-    if role == "subj":
+    if role == "subj" and "vsf" in extras:
+        # the verb group comes first; it was nevertheless realized AFTER the coordination wrote the shared record
+        g = m["rec"]["g"]
+        out["sent"] = list(extras["prefix"]) + extras["vsf"]["%d%s%s" % (m["pe"], "p" if m["pl"] else "s", g or "-")] \
+            + list(m["toks"])
+        out["verb"] = [m["pe"], m["pl"]]
+    elif role == "subj":
         sent = list(m["toks"]) + extras["vf"]["%d%s" % (m["pe"], "p" if m["pl"] else "s")]
         if "af" in extras:
             g = m["rec"]["g"]
@@ -549,7 +648,7 @@ def agree_cause(case):
 
 def crash_cause(case, err):
     ms = case["members"]
-    if err == "AttributeError" and case["nota"] == "cp" and not ms and case["conj"] is None and case["role"] in ("subj", "subjattr"):
+    if err == "AttributeError" and case["nota"] == "cp" and not ms and case["conj"] is None and case["role"] in ("subj", "subjattr", "vsubj"):
         return "AttributeError-empty-CP-as-subject"
     return err + "-plain"
 
@@ -589,6 +688,30 @@ def oracle_case(P, case, ans):
                 fails.append((sig("agree", agree_cause(case), case), "after %r expected verb %r got %r" % (ctext, want, rest)))
         elif rest != want:
             fails.append((sig("agree", agree_cause(case), case), "after %r expected %r got %r" % (ctext, want, rest)))
+    elif role == "vsubj":
+        pre = norm(" ".join(vs_prefix(P, case)))
+        if not (got == ctext or got.endswith(" " + ctext) or ctext == ""):
+            fails.append((sig("punct", punct_cause(case), case), "expected the clause to end with %r, got %r" % (ctext, got)))
+            return fails
+        if not nominal:
+            return fails
+        mid = got[:len(got) - len(ctext)].strip() if ctext else got
+        if not (mid == pre or mid.startswith(pre + " ") or pre == ""):
+            fails.append((sig("punct", punct_cause(case), case), "expected the clause to start with %r, got %r" % (pre, got)))
+            return fails
+        mid = mid[len(pre):].strip()
+        gs = [f[2] for f in fs]
+        known_g = bool(gs) and all(x in ("m", "f") for x in gs)
+        forms = vs_forms(P, case)
+        if case["vs"] in ("pc", "attr") and not known_g:
+            # gender not determined by the property: any gender, but person and number as specified
+            wants = {norm(" ".join(forms["%d%s%s" % (pe, "p" if pl else "s", x)])) for x in ("-", "m", "f", "x", "n")}
+        else:
+            wants = {norm(" ".join(forms["%d%s%s" % (pe, "p" if pl else "s", (g if known_g else None) or "-")]))}
+        if mid not in wants:
+            cause = agree_cause(case)
+            fails.append((sig("agree", "verb-before-subject-plain" if cause == "plain" else cause, case),
+                          "before %r expected %r got %r" % (ctext, sorted(wants), mid)))
     elif role == "alone":
         if got != ctext:
             fails.append((sig("punct", punct_cause(case), case), "expected %r got %r" % (ctext, got)))
@@ -709,6 +832,53 @@ def impl_opt(case):
                 if got["/%d" % i] != legal:
                     fails.append((sig("option", "%s-on-%s" % (name, t), case),
                                   "member %d (%s): legal=%s received=%s" % (i, t, legal, got["/%d" % i])))
+        # oracle 2 (nested coordinations): the option applied to the coordination realizes like the same tree with
+        # the option applied explicitly to every leaf member (at any depth) it is legal for
+        if name not in ("cap", "lier", "pos") and any(isinstance(t, list) for t in tree[2]):
+            try:
+                legal_kind = {}
+
+                def legal(k):
+                    if k not in legal_kind:
+                        fresh = build_tree(P, lang, nota, k)
+                        tgt = fresh if nota == "cp" else fresh.terminal
+                        cnt["n"] = 0
+                        getattr(tgt, name)(val)
+                        legal_kind[k] = cnt["n"] == 0 and prop in tgt.props
+                    return legal_kind[k]
+
+                def apply_leaves(obj, tr):
+                    elems = obj.elements if nota == "cp" else obj.dependents
+                    off = 1 if (nota == "cp" and tr[1]) else 0
+                    for i, t in enumerate(tr[2]):
+                        e = elems[i + off]
+                        if isinstance(t, list):
+                            apply_leaves(e, t)
+                        elif legal(t):
+                            getattr(e if nota == "cp" else e.terminal, name)(val)
+
+                def nested_leaves(tr, depth=0):
+                    res = []
+                    for t in tr[2]:
+                        if isinstance(t, list):
+                            res += nested_leaves(t, depth + 1)
+                        elif depth >= 1:
+                            res.append(t)
+                    return res
+                if any(legal(k) for k in nested_leaves(tree)):
+                    a1 = build_tree(P, lang, nota, tree)
+                    getattr(a1, name)(val)
+                    r1 = toks_of(a1)
+                    a2 = build_tree(P, lang, nota, tree)
+                    apply_leaves(a2, tree)
+                    r2 = toks_of(a2)
+                    if r1 != r2:
+                        fails.append((sig("option", "%s-does-not-reach-the-members-of-a-nested-coordination" % name, case),
+                                      "option on the coordination: %r ; on every legal leaf: %r" % (" ".join(r1), " ".join(r2))))
+            except core.Infra:
+                raise
+            except Exception:  # noqa  (realizing arbitrary member kinds is C07's business)
+                pass
     return None, ans, fails
 
 
@@ -775,7 +945,7 @@ def gen_case(rng, lang, nota, role, n, flavour="plain"):
     case = {"lang": lang, "nota": nota, "role": role}
     conjs = CONJ[lang]
     case["conj"] = rng.choice([conjs[0], conjs[0], conjs[1], conjs[1], conjs[2], None, None])
-    if role in ("subj", "subjattr", "obj", "alone"):
+    if role in ("subj", "subjattr", "vsubj", "obj", "alone"):
         kinds = ["np", "np", "np", "pro", "pro", "n", "q"]
         if flavour in ("nested", "mixed"):
             kinds += ["nest", "nest", "nest"]
@@ -787,7 +957,7 @@ def gen_case(rng, lang, nota, role, n, flavour="plain"):
         kinds = ["vp"]
     if nota == "dep" and role in ("attr", "vps"):
         kinds = [k for k in kinds if k != "np"] or ["adj"]
-    strpe = flavour == "strpe" and role in ("subj", "subjattr", "obj", "alone")
+    strpe = flavour == "strpe" and role in ("subj", "subjattr", "vsubj", "obj", "alone")
     if nota == "cp" and "adj" in kinds and "n" in kinds:
         kinds = [k for k in kinds if k != "n"]   # Phrase.add moves an A across an adjacent bare N (any phrase, CP included)
     case["members"] = [gen_member(rng, lang, kinds, strpe=strpe, nota=nota) for _ in range(n)]
@@ -805,6 +975,10 @@ def gen_case(rng, lang, nota, role, n, flavour="plain"):
         case["verb"] = BE[lang] if role == "subjattr" else rng.choice(VERBS[lang])
         if role == "subjattr":
             case["adj"] = rng.choice(ADJS[lang])
+    elif role == "vsubj":
+        case["vs"], case["verb"] = rng.choice(VS[lang]) if nota == "cp" else ("plain", rng.choice(VERBS[lang]))
+        if case["vs"] == "attr":
+            case["adj"] = rng.choice(ADJS[lang])
     elif role in ("obj", "attr"):
         case["verb"] = SEE[lang] if role == "obj" else BE[lang]
         case["subj"] = gen_subject(rng, lang)
@@ -812,6 +986,11 @@ def gen_case(rng, lang, nota, role, n, flavour="plain"):
         case["subj"] = gen_subject(rng, lang, noun_only=(nota == "dep"))
     if nota == "dep" and role == "alone":
         case["rel"] = rng.choice(["subj", "comp", "mod"])
+    if flavour == "incr" and n >= 1 and role in ("subj", "subjattr", "vsubj"):
+        case["incr"] = rng.randrange(1, n + 1) if n > 1 else 1
+        case["incr"] = min(case["incr"], n - 1) if n > 1 else 0
+        if nota == "cp":
+            case["cpos"] = 0
     if flavour == "malformed" and nota == "dep" and n >= 1 and role == "alone":
         case["malformed"] = True
         k = rng.random()
@@ -860,14 +1039,21 @@ def witness_cases():
             res.append({"lang": lang, "nota": nota, "role": "attr", "verb": BE[lang], "conj": c[0],
                         "subj": {"t": "pro", "pe": 2, "n": "s", "g": "m"},
                         "members": [{"t": "adj", "w": 0}, {"t": "adj", "w": 1}, {"t": "adj", "w": 2}]})
+            # the coordinated subject FOLLOWS its verb: the coordination must still be realized first
+            for vs, verb in (VS[lang] if nota == "cp" else [("plain", VERBS[lang][0])]):
+                for conj, ms in ((c[0], [np_(0), np_(1)]), (c[1], [np_(1, "p"), pro(1)]), (c[0], [np_(1), np_(2), pro(2, "p", "f")])):
+                    w = {"lang": lang, "nota": nota, "role": "vsubj", "vs": vs, "verb": verb, "conj": conj, "members": ms}
+                    if vs == "attr":
+                        w["adj"] = ADJS[lang][1]
+                    res.append(w)
             # one member which is itself a coordination
             res.append({"lang": lang, "nota": nota, "role": "subj", "verb": v, "conj": c[0],
                         "members": [{"t": "nest", "conj": c[1], "ms": [np_(0), np_(1)]}]})
     return res
 
 
-ROLES = ["alone", "subj", "subj", "subjattr", "obj", "attr", "vps"]
-FLAVOURS = ["plain", "plain", "plain", "nested", "mixed", "owna", "strpe", "malformed"]
+ROLES = ["alone", "subj", "subj", "subjattr", "vsubj", "vsubj", "obj", "attr", "vps"]
+FLAVOURS = ["plain", "plain", "plain", "nested", "mixed", "owna", "strpe", "malformed", "incr"]
 
 
 def gen_cases(ctx, total):
@@ -876,7 +1062,7 @@ def gen_cases(ctx, total):
     # systematic part: every (lang, nota, role, n, conj) at least once with plain members
     for lang in ("en", "fr"):
         for nota in ("cp", "dep"):
-            for role in ("alone", "subj", "subjattr", "obj", "attr", "vps"):
+            for role in ("alone", "subj", "subjattr", "vsubj", "obj", "attr", "vps"):
                 if role == "subjattr" and lang == "en":
                     continue
                 for n in range(0, 7):
